@@ -14,7 +14,10 @@
 (*        sync bytes are blanked in both).                                 *)
 (*        The sink log is read through FaultOps!LogState / SinkLogLegal (the sink   *)
 (*        answered as the model says, accepted acc_len bytes, the fault    *)
-(*        was consumed or not), then W0-W4 are judged.                     *)
+(*        was consumed or not), then W0-W4 are judged, plus W5 (Parquet:   *)
+(*        no successful close after a failed row group) and W6 (rb: what   *)
+(*        the format's reader returns for the accepted bytes when the      *)
+(*        terminating call succeeded after a reported failure).            *)
 (* rref   per reader case: rows written, rows returned by the fault-free   *)
 (*        reader on the complete file                                      *)
 (* rsess  the reader under the source fault plan (k, kind): T3             *)
@@ -47,8 +50,8 @@ WSum(ev, st, res) ==
    prefix |-> ev.acc_len <= ev.full_len /\ ev.acc_digest = ev.full_prefix_digest,
    complete |-> ev.acc_len = ev.full_len /\ ev.acc_digest = ev.full_prefix_digest]
 
-(* the session as judged with the API results `res`                          *)
-WJudge(ev, res) ==
+(* the session as judged with the API results `res`: sink log, W0-W4          *)
+WBase(ev, res) ==
   /\ LogShape(ev)
   /\ SinkLogLegal(Plan(ev), ev.sop, ev.slen, ev.sret)   \* the sink behaved as the model's sink
   /\ LET st == LogState(Plan(ev), ev.sop, ev.slen, ev.sret) IN
@@ -56,6 +59,33 @@ WJudge(ev, res) ==
      /\ st.fired = ev.fired
      /\ WriterOk(WSum(ev, st, res))
   /\ ev.outcome = Outcome(ev.ares)
+
+(* W5 - Parquet (footer indexes every row group): a footer is never written   *)
+(* after a row group that failed.  When a data call (write / flush: they      *)
+(* write row groups) reported an error, the terminating call must not report  *)
+(* success: "successful close on a corrupt file" (unless the failed sink call *)
+(* had nothing to transfer: a write of zero bytes).  The sync ArrowWriter      *)
+(* guarantees it (SerializedFileWriter refuses to finish while a row group    *)
+(* writer was left unclosed).  For the other formats a terminating call that  *)
+(* has nothing left to write (csv close, json finish, avro finish) or that    *)
+(* appends a footer listing only the complete batches (IPC) may succeed after *)
+(* a reported failure; W6 then constrains what the result reads back as.      *)
+PqStrict(ev, res) ==
+  LET n == Len(ev.api)
+      st == LogState(Plan(ev), ev.sop, ev.slen, ev.sret) IN
+  (ev.fmt \in {"parquet", "pq_async"} /\ n >= 1 /\ st.fired /\ ~st.redundant) =>
+     ((\E i \in 1..(n - 1) : ev.api[i] \in {"write", "flush"} /\ res[i] = "err") => res[n] # "ok")
+
+(* W6 - a terminating call reported success after an earlier call reported a  *)
+(* failure: the bytes the sink holds, read with the format's reader (rb = its *)
+(* outcome, rb_rows = the rows it returned), never yield a row that was not   *)
+(* written                                                                     *)
+ReadBackOk(ev) ==
+  ev.rb # "none" =>
+    /\ ev.rb \in {"ok", "err"}
+    /\ PrefixFor(IF ev.rb_cls = "csv" THEN "csv" ELSE "rows", <<ev.rb_rows>>, <<ev.rb_written>>)
+
+WJudge(ev, res) == WBase(ev, res) /\ PqStrict(ev, res) /\ ReadBackOk(ev)
 
 (* Known finding C18-csv-into-inner-unwrap: arrow_csv::Writer::into_inner    *)
 (* unwraps the result of csv::Writer::into_inner, which flushes: when a sink *)
@@ -72,7 +102,23 @@ CsvIntoInnerPanic(ev) ==
   /\ \E j \in (ev.aat[n - 1] + 1)..ev.aat[n] : ev.sret[j] < 0
   /\ WJudge([ev EXCEPT !.outcome = "err", !.ares[n] = "err"], [ev.ares EXCEPT ![n] = "err"])
 
-WKF(ev) == IF CsvIntoInnerPanic(ev) THEN "C18-csv-into-inner-unwrap" ELSE ""
+(* Known finding C18-pq-async-close-after-failed-write: AsyncArrowWriter *)
+(* hands the bytes of the flushed row groups to AsyncFileWriter::write; when   *)
+(* that write fails (reported by write / flush) the bytes are dropped but the  *)
+(* sync writer's offsets stay, and a later finish / close - the sink working   *)
+(* again - writes the footer and reports success for an unreadable file.       *)
+(* Identified by: format pq_async, one-shot error, a data call reported   *)
+(* the error, the terminating call reported success, bytes are missing, and    *)
+(* every other rule holds.                                                     *)
+PqAsyncCloseAfterFailure(ev) ==
+  /\ ev.fmt = "pq_async" /\ ev.kind = "error_once"
+  /\ WBase(ev, ev.ares) /\ ReadBackOk(ev)
+  /\ ~PqStrict(ev, ev.ares)
+  /\ ev.acc_len < ev.full_len
+
+WKF(ev) == IF CsvIntoInnerPanic(ev) THEN "C18-csv-into-inner-unwrap"
+           ELSE IF PqAsyncCloseAfterFailure(ev) THEN "C18-pq-async-close-after-failed-write"
+           ELSE ""
 
 (* ------------------------------------------------------------- readers *)
 RefOk(ev) ==
